@@ -18,46 +18,99 @@ def witnessState : State :=
 
 /-- a submission in validator 0's name whose signature does not verify -/
 def forgedTx : Tx :=
-  { size := 300, pubkeyMatches := true, sigValid := false,
+  { size := 300, infos := [{ pubkeyMatches := true, sigValid := false }],
     msgs := [{ creator := 0, feederID := 1, basedBlock := 2, nonce := 1, prices := [] }] }
 
-/-- The property's admission clause, stated outright and in both directions: a create-price
-transaction is admitted ⇔ it respects the size limit ∧ carries the signer's public key ∧ is
-correctly signed by that key ∧ every message carries its sender's next consecutive nonce within
-MaxNonce (in order; a nonce entry exists only for validators of an open round). -/
+/-- a submission in validator 0's name carrying no SignerInfo at all (F-10c, second form) -/
+def unsignedTx : Tx := { forgedTx with infos := [] }
+
+/-- messages of validators 0 and 1, only validator 0's SignerInfo (F-10c, first form) -/
+def halfSignedTx : Tx :=
+  { size := 400, infos := [{ pubkeyMatches := true, sigValid := true }],
+    msgs := [{ creator := 0, feederID := 1, basedBlock := 2, nonce := 1, prices := [] },
+             { creator := 1, feederID := 1, basedBlock := 2, nonce := 1, prices := [] }] }
+
+/-- The property's admission clause, stated outright and in both directions, for transactions with
+any number of messages and signers: a create-price transaction is admitted ⇔ it respects the size
+limit ∧ carries exactly one SignerInfo per signer ∧ each of them holds that signer's public key ∧
+each signature verifies against it ∧ every message carries its sender's next consecutive nonce
+within MaxNonce (in order; a nonce entry exists only for validators of an open round). -/
 theorem C13_admitted_iff (s : State) (tx : Tx) (st : Store) :
     anteHandle s tx = .ok st ↔
-      (tx.size ≤ 1000 ∧ tx.pubkeyMatches = true ∧ tx.sigValid = true ∧
+      (tx.size ≤ 1000 ∧ tx.infos.length = tx.signers.length ∧
+        (∀ i ∈ tx.infos, i.pubkeyMatches = true ∧ i.sigValid = true) ∧
         anteNonces s.store.params.maxNonce s.store tx.msgs = some st) := by
   unfold anteHandle
   by_cases h1 : tx.size > 1000
   · simp [h1]; intro h; omega
-  · by_cases h2 : tx.pubkeyMatches = true
-    · by_cases h4 : tx.sigValid = true
-      · cases h3 : anteNonces s.store.params.maxNonce s.store tx.msgs with
-        | none => simp [h1, h2, h3, h4]
-        | some st' =>
-          simp only [h1, h2, h3, h4, if_false, Bool.not_true, Bool.false_eq_true]
+  · by_cases h0 : tx.infos.length = tx.signers.length
+    · by_cases h2 : (tx.infos.any (fun i => !i.pubkeyMatches)) = true
+      · simp only [h1, h0, h2, if_true, if_false, ne_eq, not_true_eq_false]
+        constructor
+        · intro h; cases h
+        · intro h
+          obtain ⟨i, hi, hp⟩ := List.any_eq_true.mp h2
+          have := (h.2.2.1 i hi).1
+          simp [this] at hp
+      · by_cases h4 : (tx.infos.any (fun i => !i.sigValid)) = true
+        · simp only [h1, h0, h2, h4, if_true, if_false, ne_eq, not_true_eq_false, Bool.false_eq_true]
           constructor
-          · intro h; cases h; exact ⟨by omega, trivial, trivial, rfl⟩
-          · intro h; cases h.2.2.2; rfl
-      · simp [h1, h2, h4]
-    · simp [h1, h2]
+          · intro h; cases h
+          · intro h
+            obtain ⟨i, hi, hp⟩ := List.any_eq_true.mp h4
+            have := (h.2.2.1 i hi).2
+            simp [this] at hp
+        · have hall : ∀ i ∈ tx.infos, i.pubkeyMatches = true ∧ i.sigValid = true := by
+            intro i hi
+            constructor
+            · cases hp : i.pubkeyMatches with
+              | true => rfl
+              | false => exact absurd (List.any_eq_true.mpr ⟨i, hi, by simp [hp]⟩) h2
+            · cases hp : i.sigValid with
+              | true => rfl
+              | false => exact absurd (List.any_eq_true.mpr ⟨i, hi, by simp [hp]⟩) h4
+          cases h3 : anteNonces s.store.params.maxNonce s.store tx.msgs with
+          | none => simp [h1, h0, h2, h4, h3]
+          | some st' =>
+            simp only [h1, h0, h2, h4, h3, if_false, ne_eq, not_true_eq_false, Bool.false_eq_true]
+            constructor
+            · intro h; cases h; exact ⟨by omega, trivial, hall, rfl⟩
+            · intro h; cases h.2.2.2; rfl
+    · simp only [h1, if_false, ne_eq, h0, not_false_eq_true, if_true]
+      constructor
+      · intro h; cases h
+      · intro h; simp [h0] at h
 
-/-- `C13_full`: admitted ⇒ every conjunct of the property's admission clause, including
-"correctly signed" (holds since the repair of F-10a; `Props/C13Tie.lean` ties the signature
-step to the source). -/
+/-- `C13_full`: admitted ⇒ every conjunct of the property's admission clause, for every signer
+(holds since the repairs of F-10a and F-10c; `Props/C13Tie.lean` ties the signature step and the
+signer-count check to the source). -/
 def C13_full : Prop :=
   ∀ (s : State) (tx : Tx) (st : Store), anteHandle s tx = .ok st →
-    tx.size ≤ 1000 ∧ tx.pubkeyMatches = true ∧ tx.sigValid = true ∧
+    tx.size ≤ 1000 ∧ tx.infos.length = tx.signers.length ∧
+    (∀ i ∈ tx.infos, i.pubkeyMatches = true ∧ i.sigValid = true) ∧
     anteNonces s.store.params.maxNonce s.store tx.msgs = some st
 
 theorem C13_full_holds : C13_full := fun s tx st h => (C13_admitted_iff s tx st).mp h
 
+/-- every signer of an admitted tx is covered by a verified SignerInfo: nobody's submission is
+admitted on somebody else's signature -/
+theorem C13_every_signer_signed (s : State) (tx : Tx) (st : Store) (h : anteHandle s tx = .ok st)
+    (k : Nat) (hk : k < tx.signers.length) :
+    ∃ i, tx.infos[k]? = some i ∧ i.pubkeyMatches = true ∧ i.sigValid = true := by
+  obtain ⟨_, hlen, hall, _⟩ := (C13_admitted_iff s tx st).mp h
+  have hk' : k < tx.infos.length := by omega
+  exact ⟨tx.infos[k], by simp [hk'], hall _ (List.getElem_mem hk')⟩
+
 /-- Regression for F-10a: the forged submission (validator's public key, invalid signature, next
 nonce) is refused by the ante chain. -/
 theorem C13_forged_signature_rejected : anteHandle witnessState forgedTx = .error "sig" := by
-  simp [anteHandle, witnessState, forgedTx]
+  simp [anteHandle, witnessState, forgedTx, Tx.signers, dedupNat]
+
+/-- Regressions for F-10c: a tx without SignerInfo, and a tx whose second signer has none, are
+refused. -/
+theorem C13_missing_signer_info_rejected :
+    anteHandle witnessState unsignedTx = .error "sig" ∧ anteHandle witnessState halfSignedTx = .error "sig" := by
+  constructor <;> simp [anteHandle, witnessState, unsignedTx, forgedTx, halfSignedTx, Tx.signers, dedupNat]
 
 /-- The nonce rule: accepted ⇒ the sender has an entry for that feeder (only validators of an open
 round have one), the nonce is exactly previous+1, it is within MaxNonce, and only that entry moves. -/
@@ -128,8 +181,8 @@ theorem C13_admitted_not_counted_only_nonce (s : State) (tx : Tx) (m : Msg) (st 
         simp [createPrice, hts, getAgc, hg, hp, hc, State.cacheD]
     · simp [createPrice, hts]
 
-example : anteHandle witnessState { forgedTx with sigValid := true } =
+example : anteHandle witnessState { forgedTx with infos := [{ pubkeyMatches := true, sigValid := true }] } =
     .ok { witnessState.store with nonces := [((0, 1), 1)] } := by
-  simp [anteHandle, anteNonces, Store.checkNonce, witnessState, forgedTx, witnessParams, alookup, aset]
+  simp [anteHandle, anteNonces, Store.checkNonce, witnessState, forgedTx, witnessParams, alookup, aset, Tx.signers, dedupNat]
 
 end ExoVerif.Oracle
